@@ -128,6 +128,9 @@ def model_validation(seed, verbose=False):
     results.append(differential('round', lambda a, k: models.m_round(a, k), round, [(a, k) for a in ints for k in (-3, -2, -1, 0, 1)]))
     results.append(differential('str(int)', models.m_str, str, [(a,) for a in ints]))
     results.append(differential('hex(int)', models.m_hex, hex, [(a,) for a in ints]))
+    rt = ['0', '7', '10', '007', '+5', ' 12 ', '1_0', '123456789012', '-3', '00', '90', '٣']
+    results.append(differential('str(int(str)+k)', lambda s, k: models.m_str(models.m_int(s) + k), lambda s, k: str(int(s) + k), [(s, k) for s in rt for k in (0, 1, -1)]))
+    results.append(differential('str(int(str)-1+1)', lambda s: models.m_str((models.m_int(s) - 1) + 1), lambda s: str((int(s) - 1) + 1), [(s,) for s in rt]))
     results.append(differential('int(str)', models.m_int, int, [(s,) for s in strs]))
     results.append(differential('int(str,16)', lambda s: models.m_int(s, 16), lambda s: int(s, 16), [(s,) for s in strs + ['ff', 'FF', '1g', '7f', 'FFFFFFFFFF']]))
     results.append(differential('float(str)', lambda s: models.m_float(s), float, [(s,) for s in strs]))
